@@ -223,6 +223,67 @@ func SingleFieldStore(addr ssa.Value) ssa.Value {
 	return nil
 }
 
+// FreshFieldVal: load reads field f of a struct this function allocated itself and that nothing but field stores, field
+// loads and a return touch; exactly one store writes f and it dominates the load: the stored value.  nil otherwise.
+func FreshFieldVal(load *ssa.UnOp) ssa.Value {
+	if load.Op != token.MUL {
+		return nil
+	}
+	fa, ok := load.X.(*ssa.FieldAddr)
+	if !ok {
+		return nil
+	}
+	al, ok := fa.X.(*ssa.Alloc)
+	if !ok || al.Parent() != load.Parent() || al.Referrers() == nil {
+		return nil
+	}
+	var st *ssa.Store
+	for _, ref := range *al.Referrers() {
+		switch x := ref.(type) {
+		case *ssa.FieldAddr:
+			if x.Referrers() == nil {
+				return nil
+			}
+			for _, rr := range *x.Referrers() {
+				switch y := rr.(type) {
+				case *ssa.Store:
+					if y.Addr != ssa.Value(x) {
+						return nil
+					}
+					if x.Field == fa.Field {
+						if st != nil {
+							return nil
+						}
+						st = y
+					}
+				case *ssa.UnOp, *ssa.DebugRef:
+				default:
+					if x.Field == fa.Field {
+						return nil
+					}
+				}
+			}
+		case *ssa.Return, *ssa.DebugRef:
+		case *ssa.UnOp:
+		default:
+			return nil
+		}
+	}
+	if st == nil {
+		return nil
+	}
+	if st.Block() == load.Block() {
+		if InstrIndex(st) < InstrIndex(load) {
+			return st.Val
+		}
+		return nil
+	}
+	if st.Block().Dominates(load.Block()) {
+		return st.Val
+	}
+	return nil
+}
+
 // CellStores exposes all stores to a cell (nil, true when they cannot be enumerated).
 func CellStores(addr ssa.Value) ([]*ssa.Store, bool) { return cellStores(addr, 0) }
 
